@@ -41,6 +41,11 @@ def run(ctx):
     finally:
         vf.NOUPD[0] = False
         vf.NOCAST[0] = False
+    ctx.floor('R1-sink-inventory', 9)
+    ctx.floor('R2-gates', 10)
+    ctx.floor('R3-check-shape', 12)
+    ctx.floor('R5-zc-adapters', 6)
+    ctx.floor('R4-handle-flags', 3)
     ctx.assumptions += ["files that did not exist before (created through the export) are outside the property", "sizes after arbitrary histories are not examined"]
 
 
